@@ -21,6 +21,9 @@ fn main() {
 		std::process::exit(2);
 	};
 	let t0 = Instant::now();
+	if prop == "C20" && args.rest.get(1).map(String::as_str) == Some("--chroot-leg") {
+		std::process::exit(c20::chroot_child(args.rest.get(2).map_or("", String::as_str)));
+	}
 	if let Some(path) = &args.replay {
 		let v: orch::ViolationRec = match std::fs::read_to_string(path).ok().and_then(|s| serde_json::from_str(&s).ok()) {
 			Some(v) => v,
